@@ -109,7 +109,11 @@ def t_sets_dicts():
     e = defaultdict(list)
     e['q'].append(1)
     e['q'].append(2)
-    return len(s) + (10 if 4 in s else 0) + (100 if 5 in s else 0) + d['k'][1] + len(e['q'])    # 2+10+0+9+2 = 23
+    g = d.copy()
+    g.update({'z': 1}, w=2)
+    first = e.pop('q', [])
+    pick = [5, 6, 7].__getitem__
+    return len(s) + (10 if 4 in s else 0) + (100 if 5 in s else 0) + d['k'][1] + len(first) + len(g) + len(d) + len(e) + e.pop('nothing', 40) + pick(2)   # 2+10+0+9+2+3+1+0+40+7 = 74
 
 
 def t_classes():
@@ -123,7 +127,7 @@ def t_getters():
     return first((8, 9)) + wid(Box(1, 4))              # 8 + 3 = 11
 '''
 
-EXPECT = {'t_namedtuple': 27, 't_subclass': 34, 't_partial': 42, 't_reduce': 63, 't_generators': 44, 't_sets_dicts': 23, 't_classes': 34, 't_getters': 11}
+EXPECT = {'t_namedtuple': 27, 't_subclass': 34, 't_partial': 42, 't_reduce': 63, 't_generators': 44, 't_sets_dicts': 74, 't_classes': 34, 't_getters': 11}
 
 
 def main(db):
